@@ -426,6 +426,19 @@ impl Ser {
                 ctx.count("trees_with_empty_text_nodes");
             }
         }
+        // a real declaration that binds another prefix to the XML namespace (the serialiser only leaves xmlns:xml out)
+        if rng.chance(1, 12) {
+            let mut done = false;
+            a.walk_mut(&mut |n| {
+                if !done && n.kind == AKind::Elem && !n.decls.iter().any(|(p, _)| p == "zx") {
+                    n.decls.push(("zx".to_string(), XML_NS.to_string()));
+                    done = true;
+                }
+            });
+            if done {
+                ctx.count("trees_with_an_alias_for_the_xml_namespace");
+            }
+        }
         // adjacent text nodes (consolidation off): "]]" at the end of one and ">" at the start of the next
         let mut adjacent = false;
         if rng.chance(1, 5) {
@@ -456,7 +469,16 @@ impl Ser {
         let unescaped_gt = rng.bool();
         let flat = built.flat();
         let elems: Vec<Node> = flat.iter().copied().filter(|n| xot.is_element(*n)).collect();
-        let target = if !elems.is_empty() && rng.chance(1, 2) { elems[rng.below(elems.len())] } else { built.node };
+        // the whole tree, an element subtree, or (one case in six) a single text / comment / PI node of the tree
+        let leaves: Vec<Node> = flat.iter().copied().filter(|n| !xot.is_element(*n) && !xot.is_document(*n)).collect();
+        let target = if !leaves.is_empty() && rng.chance(1, 6) {
+            ctx.count("single_leaf_targets");
+            leaves[rng.below(leaves.len())]
+        } else if !elems.is_empty() && rng.chance(1, 2) {
+            elems[rng.below(elems.len())]
+        } else {
+            built.node
+        };
         let sub = match sub_anode(&a, &built, target) {
             Some(s) => s.clone(),
             None => return,
@@ -778,7 +800,7 @@ impl Monitor for Ser {
     fn floors(&self, _tier: Tier) -> Vec<(&'static str, u64)> {
         match self.0 {
             SW::C14 => vec![("reparsed_equal.plain", 10_000), ("reparsed_equal.indented", 10_000), ("whitespace_nodes_inserted", 10_000), ("with_cdata_section_elements", 5_000), ("with_declaration", 1_000), ("deep_chain_trees", 2_000), ("serialised.via_token_entry_points", 10_000), ("with_doctype", 5_000)],
-            SW::C16 => vec![("tokens_equal_string", 10_000), ("pretty_tokens_equal_string", 10_000), ("writers_equal_string", 10_000), ("output_events_match", 10_000), ("deep_chain_trees", 2_000), ("trees_with_empty_text_nodes", 2_000), ("cases_with_a_changing_normalizer", 10_000), ("trees_with_adjacent_text_nodes", 2_000)],
+            SW::C16 => vec![("tokens_equal_string", 10_000), ("pretty_tokens_equal_string", 10_000), ("writers_equal_string", 10_000), ("output_events_match", 10_000), ("deep_chain_trees", 2_000), ("trees_with_empty_text_nodes", 2_000), ("cases_with_a_changing_normalizer", 10_000), ("trees_with_adjacent_text_nodes", 2_000), ("single_leaf_targets", 5_000), ("trees_with_an_alias_for_the_xml_namespace", 2_000)],
         }
     }
     fn assumptions(&self) -> Vec<String> {
